@@ -8,7 +8,11 @@ prefix directory is answered from the case's tick list.  Slices are started by c
 start_slice() directly (as src/allmydata/test/test_crawler.py does with start_current_prefix),
 never through the reactor timer.  A kill raises out of a hook after k events of the slice (the
 state in memory is abandoned) and a new crawler object is created from the state file.
-Model: coq/Model/Crawler.v (`run`), evaluated by vm_compute on the same layout, ticks and kills.
+Histories in which buckets are added/removed between the cycles of one crawler object, and damaged stores
+(zero-length / cut / bad-magic share files in the first, a middle and the last bucket) crawled by the real
+LeaseCheckingCrawler (recording subclass installed through StorageServer.LeaseCheckerClass) are run as well.
+Model: coq/Model/Crawler.v (`run`, `run_epochs`) and coq/Model/Expirer.v (`process_bucket` with unreadable
+shares), evaluated by vm_compute on the same layout, ticks and kills.
 Oracle: the property statement evaluated on the recorded log (independent of the model)."""
 import json
 import os
@@ -51,6 +55,7 @@ META = {
 }
 
 IMPORTS = ["Lib.Hex", "Model.Crawler"]
+IMPORTS_EXP = ["Lib.Hex", "Model.Crawler", "Model.Expirer"]
 
 
 class Killed(BaseException):
@@ -675,7 +680,257 @@ def run(ctx):
         if len(batch.terms) >= 400:
             batch.flush("c27")
     batch.flush("c27")
+    # ---- damaged stores under the real lease checker ----
+    ctx.correspondence("lease-checker-on-damaged-store-vs-model")
+    dterms, dinfo = [], []
+    for recipe in damaged_recipes(ctx, thorough):
+        run_damaged(ctx, recipe, "d%d" % recipe["key"], dterms, dinfo)
+    bad = ctx.coq_check(IMPORTS_EXP, dterms, tag="c27dmg")
+    for ix in bad:
+        case, b32, st = dinfo[ix]
+        ctx.mismatch("lease-checker-damaged-store-model-vs-impl", "Model/Expirer.v process_bucket and the real lease checker differ on a bucket of a damaged store",
+                     case=case, observed={"bucket": b32, "before_after": st}, correspondence="lease-checker-on-damaged-store-vs-model")
+    ctx.trace(len(dterms) - len(bad))
     batch.finish()
+
+
+# ---- damaged stores under the lease checker (the crawler the node really runs) -----------------
+DAMAGE_KINDS = ["zero-length", "cut-immutable-header", "mutable-magic-cut-header", "bad-magic-full-length"]
+T0 = 1700000000
+D40 = 40 * 86400
+
+
+class _Fixed(object):
+    def __init__(self, now):
+        self.now = now
+
+    def time(self):
+        return self.now
+
+
+class _Counting(object):
+    def __init__(self):
+        self.n = 0
+
+    def time(self):
+        self.n += 1
+        return self.n
+
+
+def damaged_recipes(ctx, thorough):
+    out = []
+    k = 0
+    for kind in DAMAGE_KINDS:
+        for where in ("first", "middle", "last"):
+            for placement in ("extra-file", "only-file"):
+                if not thorough and (k % 2) and kind == "bad-magic-full-length":
+                    k += 1
+                    continue
+                out.append({"key": k, "damage": kind, "where": where, "placement": placement,
+                            "enabled": bool(k % 2 == 0), "style": ["one-slice", "slices", "restart"][k % 3],
+                            "prefix_bytes": [[0, 0, 0], [0, 120, 255], [37, 37, 200, 255], [255, 255]][k % 4],
+                            "mutable": [bool((k + j) % 3 == 0) for j in range(4)]})
+                k += 1
+    return out
+
+
+def run_damaged(ctx, recipe, tag, terms, info):
+    """Real StorageServer + LeaseCheckingCrawler (recording subclass) over a store with one damaged share file."""
+    import shutil
+    from twisted.internet.task import Clock
+    from allmydata.storage import crawler as crawler_mod, expirer as expirer_mod, lease as lease_mod
+    from allmydata.storage.common import si_b2a, storage_index_to_dir
+    from allmydata.storage.expirer import LeaseCheckingCrawler
+    from allmydata.storage.server import StorageServer
+    from allmydata.storage.shares import get_share_file
+
+    calls = []
+
+    class RecordingLeaseChecker(LeaseCheckingCrawler):
+        def process_bucket(self, cycle, prefix, prefixdir, storage_index_b32):
+            calls.append((cycle, storage_index_b32))
+            return LeaseCheckingCrawler.process_bucket(self, cycle, prefix, prefixdir, storage_index_b32)
+
+    class Server(StorageServer):
+        LeaseCheckerClass = RecordingLeaseChecker
+
+    base = os.path.join(env.subdir("c27"), tag)
+    clock = Clock()
+    clock.advance(T0)
+    enabled = recipe["enabled"]
+
+    def make():
+        return Server(base, b"\x27" * 20, expiration_enabled=enabled, expiration_mode="age", clock=clock)
+    ss = make()
+    sis = []
+    for j, pb in enumerate(recipe["prefix_bytes"]):
+        si = bytes([pb, j]) + b"%014d" % (recipe["key"] * 10 + j)
+        if recipe["mutable"][j % 4]:
+            ss.slot_testv_and_readv_and_writev(si, (b"W" * 32, b"r" * 32, b"c" * 32), {0: ([], [(0, b"mutable data")], None)}, [])
+        else:
+            _, w = ss.allocate_buckets(si, b"r" * 32, b"c" * 32, {0}, 5)
+            w[0].write(0, b"hello")
+            w[0].close()
+        sis.append(si)
+    order = sorted(sis, key=lambda x: (ss.lease_checker.prefixes.index(si_b2a(x)[:2].decode()), si_b2a(x)))
+    victim = {"first": order[0], "middle": order[len(order) // 2], "last": order[-1]}[recipe["where"]]
+    bdir = os.path.join(ss.sharedir, storage_index_to_dir(victim))
+    good = os.path.join(bdir, "0")
+    target = os.path.join(bdir, "7" if recipe["placement"] == "extra-file" else "0")
+    # material for the damage: real container headers
+    scratch_si = b"\xfe" * 16
+    ss.slot_testv_and_readv_and_writev(scratch_si, (b"W" * 32, b"r" * 32, b"c" * 32), {0: ([], [(0, b"x" * 50)], None)}, [])
+    mpath = os.path.join(ss.sharedir, storage_index_to_dir(scratch_si), "0")
+    mutable_bytes = open(mpath, "rb").read()
+    shutil.rmtree(os.path.dirname(mpath))
+    good_bytes = open(good, "rb").read()
+    kind = recipe["damage"]
+    if kind == "zero-length":
+        data = b""
+    elif kind == "cut-immutable-header":
+        data = (good_bytes if not recipe["mutable"][sis.index(victim) % 4] else b"\x00\x00\x00\x02" + b"\x00" * 20)[:7]
+    elif kind == "mutable-magic-cut-header":
+        data = mutable_bytes[:45]
+    else:
+        data = b"BAD MAGIC" + good_bytes[9:] if len(good_bytes) > 9 else b"BAD MAGIC"
+    with open(target, "wb") as f:
+        f.write(data)
+    damaged_shnum = int(os.path.basename(target))
+    all_buckets = set(si_b2a(x).decode() for x in sis)
+    now = T0 + D40
+
+    def share_files():
+        st = {}
+        for x in sis:
+            d = os.path.join(ss.sharedir, storage_index_to_dir(x))
+            for fn in os.listdir(d):
+                st[(si_b2a(x).decode(), int(fn))] = os.path.join(d, fn)
+        return st
+
+    def read(path):
+        if not os.path.exists(path):
+            return None
+        try:
+            return [int(li.get_expiration_time()) for li in get_share_file(path).get_leases()]
+        except Exception:
+            return "unreadable"
+
+    listing_before = {x: [fn for fn in os.listdir(os.path.join(ss.sharedir, storage_index_to_dir(x)))] for x in sis}
+    files = share_files()
+    before = {k2: read(pth) for k2, pth in files.items()}
+    types = {}
+    for (b32, shnum), pth in files.items():
+        try:
+            types[(b32, shnum)] = get_share_file(pth).sharetype
+        except Exception:
+            types[(b32, shnum)] = "immutable"
+    case = {"damaged_recipe": recipe}
+    saved = (crawler_mod.time, expirer_mod.time, lease_mod.time, expirer_mod.twlog)
+
+    class _QuietLog(object):
+        """process_bucket reports a corrupt share with twlog.msg/twlog.err; keep that off the check's output"""
+        @staticmethod
+        def msg(*a, **k):
+            pass
+
+        @staticmethod
+        def err(*a, **k):
+            pass
+    fixed = _Fixed(now)
+    style = recipe["style"]
+    problems = False
+    try:
+        expirer_mod.time = fixed
+        expirer_mod.twlog = _QuietLog
+        lease_mod.time = fixed
+        crawler_mod.time = fixed if style == "one-slice" else _Counting()
+        for cyc in range(2):
+            del calls[:]
+            finished = False
+            exc = None
+            for k in range(40):
+                lc = ss.lease_checker
+                lc.cpu_slice = 10 ** 9 if style == "one-slice" else 450
+                try:
+                    lc.start_slice()
+                except Exception as e:
+                    exc = e
+                    break
+                if lc.state["last-cycle-finished"] == cyc:
+                    finished = True
+                    break
+                if style == "restart" and k in (0, 2):
+                    ss = make()
+            ctx.case(("damaged", recipe["damage"], recipe["where"], recipe["placement"], style, enabled, cyc), kind="damaged-store-" + recipe["damage"])
+            if exc is not None:
+                problems = True
+                ctx.oracle_fail("lease-checker-dies-on-unreadable-share",
+                                "cycle %d: the lease checker raised %s (%s) at a %s share file in the %s bucket; the slice ended without save_state, "
+                                "%d of %d buckets were processed" % (cyc, type(exc).__name__, exc, kind, recipe["where"], len(set(b for _, b in calls)), len(all_buckets)),
+                                case=case, expected="recorded under corrupt-shares, crawl continues", observed=type(exc).__name__)
+                break
+            if not finished:
+                problems = True
+                ctx.oracle_fail("crawler-cycle-never-finishes", "cycle %d not finished after 40 slices" % cyc, case=case)
+                break
+            processed = set(b for c2, b in calls if c2 == cyc)
+            if not all_buckets <= processed:
+                problems = True
+                ctx.oracle_fail("crawler-cycle-finished-with-unprocessed-bucket",
+                                "cycle %d finished but buckets %s were not processed" % (cyc, sorted(all_buckets - processed)[:3]), case=case,
+                                expected=sorted(all_buckets), observed=sorted(processed))
+            hist = ss.lease_checker.get_state()["history"].get(str(cyc), {})
+            examined = hist.get("space-recovered", {}).get("examined-buckets")
+            if examined != len(all_buckets):
+                problems = True
+                ctx.oracle_fail("crawler-cycle-finished-with-unprocessed-bucket",
+                                "cycle %d: examined-buckets is %r, the store has %d buckets" % (cyc, examined, len(all_buckets)), case=case,
+                                expected=len(all_buckets), observed=examined)
+            corrupt = sorted(tuple(x) for x in hist.get("corrupt-shares", []))
+            want = [(si_b2a(victim).decode(), damaged_shnum)]
+            if corrupt != want:
+                problems = True
+                ctx.oracle_fail("lease-checker-corrupt-shares-record", "cycle %d: corrupt-shares is %r, the damaged file is %r" % (cyc, corrupt, want),
+                                case=case, expected=want, observed=corrupt)
+            if cyc == 0:
+                after = {k2: read(pth) for k2, pth in files.items()}
+                for k2 in files:
+                    if before[k2] == "unreadable":
+                        ok = after[k2] == "unreadable"
+                    elif enabled:
+                        ok = after[k2] is None          # every good share was renewed 40 days ago
+                    else:
+                        ok = after[k2] == before[k2]
+                    if not ok:
+                        problems = True
+                        ctx.oracle_fail("gc-damaged-store-share-decision",
+                                        "share %r: before %r, after one cycle %r (expiration %s)" % (k2, before[k2], after[k2], "enabled" if enabled else "disabled"),
+                                        case=case, observed=after[k2])
+                # model: one process_bucket call per bucket
+                pol = "(mk_policy %s (ModeAge None) true true)" % T.boolean(enabled)
+                for x in sis:
+                    b32 = si_b2a(x).decode()
+                    ents, afts, cor = [], [], []
+                    for fn in listing_before[x]:
+                        k2 = (b32, int(fn))
+                        ty = "Immutable" if types[k2] == "immutable" else "Mutable"
+
+                        def st(v):
+                            if v is None:
+                                return "Gone"
+                            if v == "unreadable":
+                                return "Unreadable"
+                            return "(Present %s)" % T.lst(["(mk_lease %s %s)" % (T.Z(e), T.N(j2)) for j2, e in enumerate(v)])
+                        ents.append("(%s, %s, %s)" % (T.N(int(fn)), ty, st(before[k2])))
+                        afts.append("(%s, %s, %s)" % (T.N(int(fn)), ty, st(after[k2])))
+                        if before[k2] == "unreadable":
+                            cor.append(T.N(int(fn)))
+                    terms.append("bucket_agrees %s %s %s %s %s" % (pol, T.Z(now), T.lst(ents), T.lst(afts), T.lst(cor)))
+                    info.append((case, b32, {str(k2): (before[k2], after[k2]) for k2 in files if k2[0] == b32}))
+    finally:
+        crawler_mod.time, expirer_mod.time, lease_mod.time, expirer_mod.twlog = saved
+        shutil.rmtree(base, ignore_errors=True)
+    return not problems
 
 
 def epoch_recipes(ctx, thorough):
@@ -744,6 +999,9 @@ def run_recipe(ctx, batch, recipe, tag):
 
 def replay(ctx, rec):
     case = rec["case"]
+    if "damaged_recipe" in case:
+        ok = run_damaged(ctx, case["damaged_recipe"], "replay-damaged", [], [])
+        return {"damaged_store": case["damaged_recipe"], "property_holds": ok}
     if "epochs_recipe" in case:
         b = Batch(ctx)
         result, final = run_recipe(ctx, b, case["epochs_recipe"], "replay-epochs")
